@@ -58,6 +58,7 @@ pub const KINDS: &[&str] = &[
     "geo_frame",       // 51 (the symbol embedded in a frame of light / dark / alternating modules: a captured quiet zone)
     "cw_foreign",      // 52 (in-radius errors whose syndromes obey ANOTHER block's recurrence on a chosen set of rows)
     "snd_surplus",     // 53 (the renderer is handed a codeword buffer longer than the symbol needs)
+    "cw_uniform",      // 54 (stuck-at damage that completes a uniform region - all 0xFF, say - in the received word)
 ];
 
 pub fn kind_id(name: &str) -> u8 {
@@ -96,6 +97,9 @@ pub enum Op {
     GeoFrame { n: u32, fill: u32 },
     /// widths that do not fit 32 bits (see `huge_width`)
     GeoWidthHuge { code: u32 },
+    /// the array replaced by an all-light one whose LENGTH is a catalogue pixel count plus 2^32 (see `huge_blank`);
+    /// built lazily from zeroed pages, so it costs nothing unless the consumer reads all of it
+    GeoHugeBlank { code: u32 },
     GeoEmpty,
     GeoRot { q: u8 },
     GeoMirror,
@@ -105,6 +109,21 @@ pub enum Op {
     /// producer output (a history: call, call, ..., call); the faults after the last separator are the call
     /// whose outcome is checked. Exercises state that a decoder might carry from one call to the next.
     NextCall,
+}
+
+/// Arrays whose pixel COUNT aliases a catalogue size when truncated to 32 bits: (rows x width) of a catalogue size
+/// with a power-of-two width, plus 2^32 pixels (whole rows, so the array is not ragged). (length, width).
+pub const N_HUGE_BLANKS: u32 = 6;
+pub fn huge_blank(code: u32) -> (usize, usize) {
+    let extra = 1usize << 32;
+    match code {
+        0 => (16 * 16 + extra, 16),
+        1 => (8 * 32 + extra, 32),
+        2 => (32 * 32 + extra, 32),
+        3 => (8 * 64 + extra, 64),
+        4 => (64 * 64 + extra, 64),
+        _ => (extra, 16),
+    }
 }
 
 /// Extreme widths: the ends of the usize range, the 2^31 / 2^32 / 2^63 boundaries, and catalogue widths plus 2^32
@@ -411,6 +430,12 @@ pub fn apply_s4(faults: &[Fault], px: &mut Vec<bool>, width: &mut usize, fired: 
                     fired[fi] = true;
                 }
             }
+            Op::GeoHugeBlank { code } => {
+                let (len, nw) = huge_blank(*code);
+                *px = vec![false; len];
+                *width = nw;
+                fired[fi] = true;
+            }
             Op::GeoEmpty => {
                 if n > 0 {
                     px.clear();
@@ -492,6 +517,7 @@ fn op_to_json(op: &Op) -> J {
         Op::GeoFrame { n, fill } => a("geo_frame", vec![J::i(*n as usize), J::i(*fill as usize)]),
         Op::GeoWidth { w } => a("geo_width", vec![J::i(*w as usize)]),
         Op::GeoWidthHuge { code } => a("geo_width_huge", vec![J::i(*code as usize)]),
+        Op::GeoHugeBlank { code } => a("geo_huge_blank", vec![J::i(*code as usize)]),
         Op::GeoEmpty => a("geo_empty", vec![]),
         Op::GeoRot { q } => a("geo_rot", vec![J::i(*q as usize)]),
         Op::GeoMirror => a("geo_mirror", vec![]),
@@ -540,6 +566,7 @@ fn op_from_json(j: &J) -> Result<Op, String> {
         "geo_frame" => Op::GeoFrame { n: n(1)?, fill: n(2)? },
         "geo_width" => Op::GeoWidth { w: n(1)? },
         "geo_width_huge" => Op::GeoWidthHuge { code: n(1)? },
+        "geo_huge_blank" => Op::GeoHugeBlank { code: n(1)? },
         "geo_empty" => Op::GeoEmpty,
         "geo_rot" => Op::GeoRot { q: n(1)? as u8 },
         "geo_mirror" => Op::GeoMirror,
@@ -721,6 +748,7 @@ impl Trace {
                 Op::GeoFrame { n, fill } => h.u32s(&[114, *n, *fill]),
                 Op::GeoWidth { w } => h.u32s(&[15, *w]),
                 Op::GeoWidthHuge { code } => h.u32s(&[115, *code]),
+                Op::GeoHugeBlank { code } => h.u32s(&[116, *code]),
                 Op::GeoEmpty => h.u32(16),
                 Op::GeoRot { q } => h.u32s(&[17, *q as u32]),
                 Op::GeoMirror => h.u32(18),
